@@ -125,7 +125,8 @@ var c08Schemes = []string{"none", "first", "all", "one", "random", "", "bogus"}
 func c08Seps(full bool) []Sep {
 	s := []Sep{{Kind: "none"}, {Kind: "char", Char: "-"}, {Kind: "SFNone"}}
 	if full {
-		s = append(s, Sep{Kind: "SFDigits1"}, Sep{Kind: "SFDigits2"}, Sep{Kind: "sf", Recipe: &ref.CharRecipe{Length: 1, AllowChars: "xyz"}})
+		s = append(s, Sep{Kind: "SFDigits1"}, Sep{Kind: "SFDigits2"}, Sep{Kind: "sf", Recipe: &ref.CharRecipe{Length: 1, AllowChars: "xyz"}},
+			Sep{Kind: "customMixed"}, Sep{Kind: "custom0", Recipe: &ref.CharRecipe{Length: 1, AllowChars: "xy"}})
 	}
 	return s
 }
@@ -224,14 +225,8 @@ func (s *wlOrderState) construct(input []string, orders string, full bool) bool 
 				w := WLCase{Words: orig, Length: L, Cap: cp, Sep: sp}
 				r := spg.NewWLRecipe(L, wl)
 				r.Capitalize = spg.CapScheme(cp)
-				switch sp.Kind {
-				case "none":
-				case "char":
-					r.SeparatorChar = sp.Char
-				case "sf":
-					r.SeparatorFunc = spg.NewSFFunction(toSpg(*sp.Recipe))
-				default:
-					r.SeparatorFunc = presetFuncs[sp.Kind]
+				if tmp, err := (WLCase{Words: []string{"q"}, Length: L, Cap: cp, Sep: sp}).build(); err == nil {
+					r.SeparatorChar, r.SeparatorFunc = tmp.SeparatorChar, tmp.SeparatorFunc
 				}
 				var e [3]float32
 				install(policyTape(func(b uint32, k int) uint32 { return 0 }))
@@ -269,6 +264,36 @@ func (s *wlOrderState) construct(input []string, orders string, full bool) bool 
 		}
 	}
 	return true
+}
+
+// bigList checks the entropy formula on a large list (no order enumeration).
+func (s *wlOrderState) bigList(in []string, uncap int) {
+	c := s.c
+	wl, err := spg.NewWordList(in)
+	c.Count("executions", 1)
+	c.Count("large_lists", 1)
+	if err != nil {
+		c.Violation("large list", "NewWordList failed: "+err.Error(), map[string]interface{}{"size": len(in)})
+		return
+	}
+	kept, uncapModel := ref.Normalise(in)
+	uncap = uncapModel
+	in = kept
+	for _, cp := range []string{"none", "one", "random", "all"} {
+		for _, L := range []int{1, 4} {
+			r := spg.NewWLRecipe(L, wl)
+			r.Capitalize = spg.CapScheme(cp)
+			install(policyTape(func(b uint32, k int) uint32 { return 0 }))
+			e := float64(r.Entropy())
+			want := ref.WLEntropy(len(in), L, cp, uncap, 0)
+			c.Count("executions", 1)
+			if math.IsNaN(e) || math.Abs(e-want) > 4*ref.Ulp32(want) {
+				c.Violation(fmt.Sprintf("large list n=%d uncap=%d", len(in), uncap), fmt.Sprintf("list of %d words of which %d do not change under title-casing, scheme %q, Length %d: Entropy() = %v, documented formula gives %v", len(in), uncap, cp, L, e, want),
+					map[string]interface{}{"size": len(in), "uncapitalisable": uncap, "scheme": cp, "length": L})
+				return
+			}
+		}
+	}
 }
 
 // explore all iteration orders for one input
@@ -393,6 +418,27 @@ func wlOrderRun(which string) func(c *core.Ctx) {
 				s.input(in)
 			}
 		}
+		// large lists with a handful of uncapitalisable words (canonical order only)
+		if which == "C08" {
+			for li, n := range []int{99, 100, 1000, 9999, 10000, 10001, 20000, 70000} {
+				for _, extra := range [][]string{nil, {"4"}, {"4", "Ab"}, {"正確", "4", "Ab", "X"}} {
+					if !c.MineKey(li*7 + len(extra)) {
+						continue
+					}
+					in := make([]string, 0, n+len(extra))
+					for i := 0; i < n; i++ {
+						in = append(in, fmt.Sprintf("w%dx", i))
+					}
+					in = append(in, extra...)
+					s.bigList(in, len(extra))
+				}
+			}
+			if c.MineKey(3) {
+				s.bigList(append(append([]string{}, spg.AgileWords...), "4"), 1)
+				s.bigList(append(append([]string{}, spg.AgileSyllables...), "Ab"), 1)
+				s.bigList(append([]string{}, spg.AgileWords...), 0)
+			}
+		}
 		if c.Expired() {
 			c.Incomplete("deadline")
 		}
@@ -417,7 +463,7 @@ func init() {
 		ID:    "C08",
 		Level: "model_checking",
 		Build: "inst",
-		Rule: "every input sequence of length 1-3 (thorough 1-4) over the 8-word universe {ab,cd,Polish,polish,Ab,4,éa,Éa} (all permutations and repetitions of every sub-multiset), every sequence of length 4 (thorough 5) over the twin pairs {ab,Ab,polish,Polish}, 7 longer inputs with up to three twin pairs x EVERY iteration order of the map ranges inside NewWordList (instrumented copy; full product of the loops' orders for <=3 distinct words, one loop deviating at a time otherwise) x 7 scheme strings x lengths 1-3 x 3-6 separator settings, Entropy() called 3 times under 2 random streams; " +
+		Rule: "every input sequence of length 1-3 (thorough 1-4) over the 8-word universe {ab,cd,Polish,polish,Ab,4,éa,Éa} (all permutations and repetitions of every sub-multiset), every sequence of length 4 (thorough 5) over the twin pairs {ab,Ab,polish,Polish}, 7 longer inputs with up to three twin pairs, lists of 99-70000 generated words and the shipped lists with 0-4 uncapitalisable words added x EVERY iteration order of the map ranges inside NewWordList (instrumented copy; full product of the loops' orders for <=3 distinct words, one loop deviating at a time otherwise) x 7 scheme strings x lengths 1-3 x 3-6 separator settings, Entropy() called 3 times under 2 random streams; " +
 			"oracle: documented formula within 4 float32 ulps and bit-identical for the same word set across all orders, permutations, repetitions, calls and streams; non-trivial = distinct (word set, recipe) pairs",
 		Assume:      []string{"Go may iterate a map in any order (spec); the instrumented range visits the keys in the chosen order and skips entries deleted meanwhile, as the spec prescribes", "iteration orders inside golang-set are left to the runtime"},
 		Run:         wlOrderRun("C08"),
